@@ -84,6 +84,7 @@ def main():
             cases = mod.gen_cases(a.tier, a.seed)
         keys = set()
         extra_keys = 0
+        any_samples = []
         nfail_by_sig = {}
         if a.replay:
             _init(mod_name)
@@ -107,11 +108,15 @@ def main():
                 nfail_by_sig[sig] = nfail_by_sig.get(sig, 0) + 1
                 if nfail_by_sig[sig] <= 3:
                     out["fails"].append(f)
+            if len(any_samples) < 3:
+                any_samples.append(res.get("sample", res.get("key")) or {"case": "(trivial case)"})
             if len(out["samples"]) < 3 and (res["key"] is not None or res.get("nkeys")) and not res["fails"]:
                 out["samples"].append(res.get("sample", res["key"]))
         if pool is not None:
             pool.close()
             pool.join()
+        if not out["samples"]:
+            out["samples"] = any_samples
         out["keys"] = len(keys) + extra_keys
         out["fail_counts"] = {"%s @ %s" % k: v for k, v in nfail_by_sig.items()}
         out["rule"] = getattr(mod, "RULE", "")
